@@ -271,7 +271,7 @@ def cases(draw, rich=False):
         # many relabellings with several mid-sized components: mid threshold, many permutations
         return {"x": x, "y": y, "thresh": draw(st.sampled_from([1.0, 1.5, 2.0])), "tail": draw(st.sampled_from(["both", "both", "left", "right"])),
                 "paired": paired, "k": draw(st.integers(15, 30)), "seed": draw(gen.seeds()), "perm_x": perm_x, "perm_y": perm_y}
-    return {"x": x, "y": y, "thresh": draw(st.sampled_from([0.5, 1.0, 2.0, 3.0])), "tail": draw(st.sampled_from(["both", "left", "right"])),
+    return {"x": x, "y": y, "thresh": draw(st.sampled_from([1.0, 0.5, 2.0, 3.0])), "tail": draw(st.sampled_from(["left", "both", "right"])),
             "paired": paired, "k": draw(st.integers(2, 20)), "seed": draw(gen.seeds()), "perm_x": perm_x, "perm_y": perm_y}
 
 
